@@ -421,7 +421,7 @@ def check_direct(o, cfg, plan, cache_kind, n, V, stats, tag):
     if info.get('m') != o.f.rows:
         V.append(viol(P, 'counter-m', '%s: info[m]=%r but the objective evaluated %d indices (stop=%s)'
                       % (tag, info.get('m'), o.f.rows, stop), plan))
-    if plan.get('m') is not None and info.get('m_max') != plan['m']:
+    if plan.get('m') is not None and info.get('m_max') != int(plan['m']):
         V.append(viol(P, 'counter-m_max', '%s: info[m_max]=%r for m=%r' % (tag, info.get('m_max'), plan['m']), plan))
     if cache_kind != 'none':
         # with a cache: each distinct index at most once, never a pre-populated one
@@ -579,8 +579,11 @@ def plans_for(scen, tw, trace, pre_cache):
                 extra = g.integers(1, M + 2, max(0, per_kind - len(ms)))
                 ms = sorted(set(ms) | set(int(x) for x in extra))
             full = False
-        for mm in ms:
+        for jj, mm in enumerate(ms):
             plans.append({'cache': ck, 'm': int(mm)})
+            if jj % 7 == 3:
+                # a budget need not be an integer ("not more than m requests"): the same budget plus a fraction
+                plans.append({'cache': ck, 'm': int(mm) + [0.4, 0.6, 0.9999999][jj % 3]})
         scen.setdefault('_enum', {})[ck] = {'calls': Nc, 'M': M, 'budgets': len(ms), 'budget_complete': full}
     g = gen(scen['combo_seed'])
     for _ in range(scen.get('n_combo', 0)):
